@@ -203,7 +203,11 @@ def eval_case(kind, data):
         ok = True
         for n, x in zip(nodes, exp_seq):
             if x[0] == "T":
-                if not isinstance(n, gbigsmiles.SmilesToken) or token_sig(str(n)) != token_sig(x[3]):
+                try:
+                    same = isinstance(n, gbigsmiles.SmilesToken) and token_sig(str(n)) == token_sig(x[3])
+                except Exception:  # noqa  (a node whose text is not even a token)
+                    same = False
+                if not same:
                     ok = False
                     viol(res, "C16|node-identity", f"{text}: node {n} should be token {x[3]}", {"text": text})
                     break
